@@ -346,7 +346,13 @@ def make_ctx(rng, natoms_group, cellkind="cubic", n_other=2):
         cell = np.diag(rng.uniform(5, 12, 3)) + np.tril(rng.uniform(-3, 3, (3, 3)), -1)
     syms = [["H", "C", "O", "Cu", "Ar", "Au"][int(i)] for i in rng.integers(0, 6, n)]
     pos = rng.uniform(0, 1, (n, 3)) @ cell
-    atoms = Atoms(syms, positions=pos, cell=cell, pbc=True)
+    where = rng.random()
+    if where < 0.2:  # atoms that have drifted out of the cell, each by its own lattice vector (groups straddle faces)
+        pos = pos + rng.integers(-2, 3, (n, 3)) @ cell
+    elif where < 0.35:  # the whole system shifted off the cell by a non-lattice vector
+        pos = pos + rng.uniform(-1.5, 1.5, 3) @ cell
+    pbc = [True, True, (True, True, False), (False, True, False), False][int(rng.integers(0, 5))]
+    atoms = Atoms(syms, positions=pos, cell=cell, pbc=pbc)
     if rng.random() < 0.3:
         atoms.set_masses(rng.uniform(1, 200, n))
     ctx = DisplacementContext(atoms, np.random.Generator(np.random.PCG64(int(rng.integers(1, 2**62)))))
